@@ -16,10 +16,11 @@ LEAN_MODULE = 'CC.Properties.C01'
 LEVEL = 'proof'
 THEOREMS = [
     'CC.C01_sound', 'CC.C01_kcl_reference', 'CC.C01_current_cases', 'CC.C01_power',
-    'CC.C01_complete', 'CC.C01_unique', 'CC.C01_matrix_unique',
-    'CC.kcl_identity', 'CC.matVec_iff_rows', 'CC.exampleReport_solves',
+    'CC.C01_complete', 'CC.C01_unique', 'CC.C01_matrix_unique', 'CC.C01_reported_is_the_solution',
+    'CC.C01_solvable', 'CC.C01_square', 'CC.kcl_identity', 'CC.matVec_iff_rows', 'CC.exampleReport_solves',
 ]
-OPEN_STATEMENTS = ['CC.C01_solvable_statement (existence: det A ≠ 0 for well-posed networks; decided per instance by the driver)']
+LEAN_MODULE_EXTRA = ['CC.Proofs.Solvable']
+OPEN_STATEMENTS = ['det-form of non-singularity (Mathlib Matrix.det ≠ 0); proved in kernel form (C01_solvable) for the square list matrix (C01_square)']
 ASSUMPTIONS = [
     'binary64 arithmetic of numpy/LAPACK agrees with field arithmetic within 1e-9 relative on instances with cond(A) < 1e8',
     'numpy.linalg.solve is a parameter of the model: theorems hold for every vector with A·x = b; the driver checks that equation exactly',
